@@ -31,8 +31,60 @@ ASSUMPTIONS = [
 ]
 
 
+def a_pairing(ck: Check) -> None:
+    """Seeds and sets stay aligned: in the candidate loop of compute_attractors_symbolic every list that records a found
+    attractor receives its entry on exactly the iterations on which the others do (or one list of records is kept)."""
+    fm = c01._cas(ck)
+    f = fm.f
+    loops = [l for l in own_walk(f.node) if isinstance(l, ast.For)
+             and any(isinstance(c_, ast.Call) and callee_name(c_) == "symbolic_attractor_test" for c_ in ast.walk(l))]
+    if not loops:
+        raise AnalysisError("anchor vanished: candidate loop of compute_attractors_symbolic")
+    lp = loops[0]
+    hdr = fm.cfg.loop_header[lp]
+    apps = [c_ for c_ in ast.walk(lp) if isinstance(c_, ast.Call) and isinstance(c_.func, ast.Attribute) and c_.func.attr == "append"
+            and isinstance(c_.func.value, ast.Name)]
+    by = {}
+    for c_ in apps:
+        by.setdefault(c_.func.value.id, []).append(c_)
+    probs = []
+    names = sorted(by)
+    for i_, a_ in enumerate(names):
+        for b_ in names[i_ + 1:]:
+            for x in by[a_]:
+                xn = fm.cfgn(x)
+                ok = False
+                for y in by[b_]:
+                    yn = fm.cfgn(y)
+                    first, second = (xn, yn) if fm.cfg.dominates(xn, yn) else (yn, xn) if fm.cfg.dominates(yn, xn) else (None, None)
+                    if first is not None and hdr.id not in fm.cfg.reach_avoiding(first, [second]) \
+                            and not any(n_.kind == "exit" for n_ in [fm.cfg.nodes[i] for i in fm.cfg.reach_avoiding(first, [second, hdr])]):
+                        ok = True
+                def _param_guards(c0):
+                    return {y.id for t_, p_, b_ in fm.facts(fm.cfgn(c0)) if b_.id in fm.cfg.loop_nodes[lp]
+                            for y in ast.walk(t_) if isinstance(y, ast.Name) and y.id in f.params()}
+                if not ok and any(_param_guards(x) != _param_guards(y) for y in by[b_]):
+                    continue       # one of the lists is only kept in a mode chosen by the caller (`if not seeds_only:`): not decided here
+                if not ok:
+                    probs.append(f"line {x.lineno}: `{a_}` records an attractor on an iteration on which `{b_}` does not (or the other way "
+                                 f"round): seed k and set k no longer belong to the same attractor")
+    # a result list that is read later but never filled in the loop
+    for n in own_walk(f.node):
+        if isinstance(n, (ast.Assign, ast.AnnAssign)) and n.value is not None and is_empty_list(n.value):
+            tg = n.targets[0] if isinstance(n, ast.Assign) else n.target
+            if isinstance(tg, ast.Name) and n.lineno < lp.lineno and tg.id not in by:
+                later = [l2 for l2 in own_walk(f.node) if isinstance(l2, ast.For) and l2.lineno > lp.lineno and isinstance(l2.iter, ast.Name) and l2.iter.id == tg.id]
+                restores = [m for m in own_walk(f.node) if isinstance(m, (ast.Assign, ast.AugAssign)) and m is not n
+                            and any(isinstance(y, ast.Name) and y.id == tg.id and isinstance(y.ctx, ast.Store) for y in ast.walk(m))]
+                if later and not restores:
+                    probs.append(f"`{tg.id}` is read after the candidate loop but nothing is ever recorded in it")
+    ck.ob("A", fm, lp, not probs, "; ".join(sorted(set(probs))) if probs else
+          "the lists that record found attractors are filled on the same iterations", key="seeds and sets aligned")
+
+
 def run(ck: Check) -> None:
     a(ck)
+    a_pairing(ck)
     b(ck)
     c(ck)
     d(ck)
